@@ -13,6 +13,7 @@ pub fn prop() -> HistProp {
     let mut gc = GenCfg::mixed();
     gc.gen_geom_pct = 65;
     gc.tiny_free_pct = 40;
+    gc.populate_pct = 10;
     HistProp {
         id: "C10",
         level: "exploration",
